@@ -81,7 +81,7 @@ def gen_tree(rng, n, ns=True, comments=True, texts=True, tags=None, attrs=None, 
     return root
 
 
-def mutate_tree(rng, root, nops=None, tags=('a', 'b', 'c'), attrs=('i', 'j', 'k')):
+def mutate_tree(rng, root, nops=None, tags=('a', 'b', 'c'), attrs=('i', 'j', 'k'), values=('1', '2')):
     r = deepcopy(root)
     for _ in range(nops or rng.randint(1, 4)):
         nodes = list(r.iter())
@@ -100,7 +100,7 @@ def mutate_tree(rng, root, nops=None, tags=('a', 'b', 'c'), attrs=('i', 'j', 'k'
         elif op == 3:
             n.text = rng.choice(['q', 'x y z', None])
         elif op == 4 and n.tag is not etree.Comment:
-            n.set(rng.choice(attrs), rng.choice(['1', '2']))
+            n.set(rng.choice(attrs), rng.choice(values))
         elif op == 5 and n.tag is not etree.Comment and n.tag in tags:
             n.tag = rng.choice(tags)
         elif op == 6 and n is not r:
@@ -118,7 +118,7 @@ def mutate_tree(rng, root, nops=None, tags=('a', 'b', 'c'), attrs=('i', 'j', 'k'
 def gen_pair(rng, maxn=8, **kw):
     L = gen_tree(rng, rng.randint(1, maxn), **kw)
     if rng.random() < 0.6:
-        R = mutate_tree(rng, L)
+        R = mutate_tree(rng, L, attrs=tuple(kw['attrs']) if kw.get('attrs') else ('i', 'j', 'k'), values=tuple(kw.get('values') or ('1', '2')))
     else:
         R = gen_tree(rng, rng.randint(1, maxn), **kw)
     return L, R
